@@ -93,7 +93,7 @@ Definition xenv : env :=
   mkEnv Qc 0%Qc 1%Qc (Q2Qc (1 # 2)) Qcplus Qcminus Qcmult Qcdiv qabs qltb (fun a b => negb (qltb b a))
         0%Qc (Q2Qc 10) (Q2Qc 100) 0%Qc (Q2Qc (-1000)) (Q2Qc 1000)
         (fun k => Some k) (fun y => fold_right (fun a acc => (a * a + acc)%Qc) 0%Qc y)
-        (fun _ _ => Some []) (fun j _ _ _ _ => j) (fun x => x).
+        (fun _ _ => Some []) (fun j _ _ _ _ => j) (fun x => x) N.eqb.
 Definition xcfg (target : Qc) : cfg Qc :=
   mkCfg [1%Qc] [None] [1%Qc] [None] [0%N] [0%N] [target] [1%Qc] [1%Qc] [0%N] 2 true true true [].
 
